@@ -50,6 +50,7 @@ TEMPLATES = [
     ("col-list->col", "insert into mid ({w}) select x from src; insert into fin select {r} as y from mid", "col-chain"),
     ("col->expr-arg", "insert into mid select x as {w} from src; insert into fin select max({r}) as y from mid", "col-chain"),
     ("col->qualified-col", "insert into mid select x as {w} from src; insert into fin select m.{r} as y from mid m", "col-chain"),
+    ("col->unqualified-over-join", "insert into mid select x as {w} from src; insert into fin select {r} as y from mid join other on 1 = 1", "col-chain"),
     ("alias->qualifier", "insert into fin select {r}.x from src {w}", "qualifier"),
     ("table->qualifier", "insert into fin select {r}.x from {w}", "table-qualifier"),
     ("cte-name->from", "insert into fin with {w} as (select x from src) select x from {r}", "cte"),
@@ -105,7 +106,7 @@ def printed_ok(pos, w, o):
         return f"{nw}.sch.mid" in tables
     if pos == "schema-of-db":
         return f"db.{nw}.mid" in tables
-    if pos in ("col-alias->col", "col-list->col", "col->expr-arg", "col->qualified-col", "col-name->col"):
+    if pos in ("col-alias->col", "col-list->col", "col->expr-arg", "col->qualified-col", "col-name->col", "col->unqualified-over-join"):
         return any(c == f"<default>.mid.{nw}" for p in o["paths"] for c in p)
     return True
 
